@@ -27,10 +27,10 @@ import seqcheck
 
 SPEC = {
     "prop": "C13",
-    "lean_targets": ["InfernoVerif.Props.C13", "InfernoVerif.Props.C13Glue", "InfernoVerif.Props.C13GlueProg", "InfernoVerif.Gen.Dispatch"],
+    "lean_targets": ["InfernoVerif.Props.C13", "InfernoVerif.Props.C13Glue", "InfernoVerif.Props.C13GlueProg", "InfernoVerif.Props.C13Run", "InfernoVerif.Gen.Dispatch"],
     "translate": ["Infra", "RingProg", "RecordProg"],
     "driver_targets": ["InfernoVerif.Model.Record", "InfernoVerif.Drv.Proto", "InfernoVerif.Gen.Dispatch"],
-    "prop_files": ["InfernoVerif/Props/C13.lean", "InfernoVerif/Props/C13Glue.lean", "InfernoVerif/Props/C13GlueProg.lean"],
+    "prop_files": ["InfernoVerif/Props/C13.lean", "InfernoVerif/Props/C13Glue.lean", "InfernoVerif/Props/C13GlueProg.lean", "InfernoVerif/Props/C13Run.lean"],
     "lemma_files": ["InfernoVerif/Lemmas/Ring.lean", "InfernoVerif/Lemmas/Record.lean"],
     "model_files": ["InfernoVerif/Model/Ring.lean", "InfernoVerif/Model/RingOps.lean",
                     "InfernoVerif/Model/Shaped.lean", "InfernoVerif/Model/Record.lean"],
